@@ -129,8 +129,12 @@ def monitor(case):
     p = case.get('parsed')
     if p is None:
         return ('violation', 'no kernel entry was read from kernelslist.g')
-    if p.get('kernels', 1) != 1:
-        return ('violation', 'kernelslist.g yielded %s kernel entries instead of 1' % p.get('kernels'))
+    want_files = k.get('gsize', 1) or 1
+    if p.get('kernels', 1) != want_files:
+        return ('violation', 'kernelslist.g yielded %s kernel entries instead of %d' % (p.get('kernels'), want_files))
+    if case.get('reparse_differs'):
+        return ('violation', 'reading the same kernel file a second time in the same process (after the other files '
+                             'of the directory) returned a different structure')
     h, ph = k['header'], p['header']
     for f in ('name', 'kid', 'grid', 'block', 'shmem', 'nregs', 'binver', 'stream', 'shbase', 'localbase',
               'nvbit', 'tracer', 'lineinfo'):
